@@ -477,7 +477,11 @@ fn cmd_check(args: &[String]) -> i32 {
 				"stalled_thread (one thread descheduled for 30-4000 switch points at one of its lock acquisitions)": probes.get("stall_fired").cloned().unwrap_or(0),
 				"worker_failure_injected (store_err at a scheduler-chosen moment)": probes.get("worker_failure_injected").cloned().unwrap_or(0),
 				"commit_throttled_queue_full": probes.get("commit_throttled_queue_full").cloned().unwrap_or(0),
-				"note": "no disk faults in this engine; the schedule itself (which thread runs at every lock / condvar operation) is the fault space",
+				"file_operation_failures_armed (ioerr: the n-th file operation of any thread and all later ones fail, parity-db's try_io counter)": probes.get("io_fault_armed").cloned().unwrap_or(0),
+				"worker_stopped_with_io_error": probes.get("worker_stopped_with_io_error").cloned().unwrap_or(0),
+				"commit_refused_after_io_failure": probes.get("commit_refused_after_io_failure").cloned().unwrap_or(0),
+				"read_failed_after_io_failure": probes.get("read_failed_after_io_failure").cloned().unwrap_or(0),
+				"note": "no crash or power-loss faults in this engine; the schedule itself (which thread runs at every lock / condvar operation) is the main fault space. Verification builds use lowered queue limits (hook H4: 128 KiB of queued commits, 1 MiB of logged unapplied bytes; log rotation at 512 KiB when logs are not always flushed)",
 			},
 			"cross_property_observations": cross,
 			"known_findings_matched": known_lines,
